@@ -1,7 +1,371 @@
-//! Correspondence harness of property C03 (stub).
-use mzkh::Ctx;
+//! Correspondence harness of property C03: a proof is accepted only for the exact statement
+//! and bytes it was made for.
+//!
+//! Correspondence lines (model = Lean `MidnightZK.C03`):
+//!   `layout <shape> <cfg>`   → byte offset and type of every proof element, from the recorded
+//!                              verifier transcript (model: layout of `verifierSchedule`);
+//!   `inststream <cols>`      → field elements absorbed for the plain instance columns;
+//!   `scalar <64 hex>`        → verdict/value of the checked scalar decoder.
+//! Oracle (mutation sweep): every mutated proof / public input / verifying key / transcript hash
+//! must make verification return an error (never accept, never panic).
+
+use blake2b_simd::State as Blake2bState;
+use ff::{Field, PrimeField};
+use group::{Curve, Group, GroupEncoding};
+use midnight_circuits::hash::poseidon::PoseidonState;
+use midnight_curves::{Bls12, Fq as F, G1Projective};
+use midnight_proofs::{
+    plonk::{commit_to_instances, create_proof, keygen_pk, keygen_vk_with_k, prepare, ProvingKey, VerifyingKey},
+    poly::{
+        commitment::Guard,
+        kzg::{params::ParamsKZG, KZGCommitmentScheme},
+    },
+    transcript::{Hashable, Sampleable, Transcript, TranscriptHash},
+};
+use mzkh::{
+    family::{sample_params, FamCircuit, FamParams, GateKind, LookupKind},
+    recording::{take_log, RecordingTranscript},
+    Ctx,
+};
+use rand::{Rng, SeedableRng};
+use rand_chacha::ChaCha8Rng;
+use serde_json::json;
+
+type Scheme = KZGCommitmentScheme<Bls12>;
+
+use mzkh::shape;
+
+struct Member {
+    fp: FamParams,
+    k: u32,
+    params: ParamsKZG<Bls12>,
+    pk: ProvingKey<F, Scheme>,
+}
+
+fn setup_member(fp: &FamParams, seed: u64, min_k: u32) -> Member {
+    let c = FamCircuit::new(fp.clone(), seed);
+    let mut k = min_k;
+    loop {
+        let params = ParamsKZG::<Bls12>::unsafe_setup(k, ChaCha8Rng::seed_from_u64(k as u64 + 99));
+        match keygen_vk_with_k::<F, Scheme, _>(&params, &c, k) {
+            Ok(vk) => {
+                let pk = keygen_pk(vk, &c).unwrap();
+                return Member { fp: fp.clone(), k, params, pk };
+            }
+            Err(_) if k < 10 => k += 1,
+            Err(e) => panic!("keygen failed: {e:?}"),
+        }
+    }
+}
+
+/// Verdict of the real verifier: Ok(true) accepted, Ok(false) error value, Err = panic.
+fn verify<H: TranscriptHash>(
+    params: &ParamsKZG<Bls12>,
+    vk: &VerifyingKey<F, Scheme>,
+    n_committed: usize,
+    insts: &[Vec<Vec<F>>],
+    coms: &[Vec<G1Projective>],
+    proof: &[u8],
+) -> Result<bool, String>
+where
+    F: Hashable<H> + Sampleable<H>,
+    G1Projective: Hashable<H>,
+{
+    let com_refs: Vec<&[G1Projective]> = coms.iter().map(|c| &c[..]).collect();
+    let plain: Vec<Vec<&[F]>> = insts.iter().map(|cols| cols[n_committed.min(cols.len())..].iter().map(|c| &c[..]).collect()).collect();
+    let plain2: Vec<&[&[F]]> = plain.iter().map(|c| &c[..]).collect();
+    mzkh::catch(|| {
+        let mut vt = RecordingTranscript::<H>::init_from_bytes(proof);
+        let g = match prepare::<F, Scheme, _>(vk, &com_refs, &plain2, &mut vt) {
+            Ok(g) => g,
+            Err(_) => return false,
+        };
+        if vt.assert_empty().is_err() {
+            return false;
+        }
+        g.verify(&params.verifier_params()).is_ok()
+    })
+}
+
+struct Proven {
+    proof: Vec<u8>,
+    insts: Vec<Vec<Vec<F>>>,
+    coms: Vec<Vec<G1Projective>>,
+    /// (offset, 'G' | 'F') of every proof element
+    layout: Vec<(usize, char)>,
+}
+
+fn prove(ctx: &mut Ctx, m: &Member, n_proofs: usize, seed: u64) -> Option<Proven> {
+    let circuits: Vec<FamCircuit> = (0..n_proofs).map(|i| FamCircuit::new(m.fp.clone(), seed + i as u64)).collect();
+    let insts: Vec<Vec<Vec<F>>> = circuits.iter().map(|c| c.instances()).collect();
+    let inst_refs: Vec<Vec<&[F]>> = insts.iter().map(|cols| cols.iter().map(|c| &c[..]).collect()).collect();
+    let inst_refs2: Vec<&[&[F]]> = inst_refs.iter().map(|c| &c[..]).collect();
+    let mut tr = RecordingTranscript::<Blake2bState>::init();
+    create_proof::<F, Scheme, _, _>(&m.params, &m.pk, &circuits, m.fp.n_committed, &inst_refs2, ChaCha8Rng::seed_from_u64(seed ^ 0xbeef), &mut tr)
+        .expect("honest proving");
+    let proof = tr.finalize();
+    let domain = m.pk.get_vk().get_domain();
+    let coms: Vec<Vec<G1Projective>> = insts
+        .iter()
+        .map(|cols| cols[..m.fp.n_committed].iter().map(|c| commit_to_instances::<F, Scheme>(&m.params, domain, c)).collect())
+        .collect();
+    take_log();
+    let ok = verify::<Blake2bState>(&m.params, m.pk.get_vk(), m.fp.n_committed, &insts, &coms, &proof);
+    let events = take_log();
+    if ok != Ok(true) {
+        ctx.oracle_fail("honest-rejected", "honest proof rejected (C01)", json!({"params": format!("{:?}", m.fp), "seed": seed}));
+        return None;
+    }
+    let mut layout = vec![];
+    let mut off = 0;
+    let mut stream: Vec<String> = vec![];
+    for e in &events {
+        if e.kind == 'R' {
+            layout.push((off, if e.ty == "G" { 'G' } else { 'F' }));
+            off += e.bytes.len();
+        }
+    }
+    // correspondence: layout
+    let shape = shape::shape_string(&m.pk, m.k);
+    let lens = insts
+        .iter()
+        .map(|cols| mzkh::join(&cols[m.fp.n_committed..].iter().map(|c| c.len()).collect::<Vec<_>>()))
+        .collect::<Vec<_>>()
+        .join("|");
+    let cfg = format!("np={} nc={} lens={}", n_proofs, m.fp.n_committed, lens);
+    ctx.case(
+        "layout",
+        true,
+        &format!("layout {shape} {cfg}"),
+        &layout.iter().map(|(o, t)| format!("{o}:{t}")).collect::<Vec<_>>().join(" "),
+    );
+    // correspondence: absorbed instance stream of the first proof (events between the vk repr
+    // and the first advice commitment that are absorbed scalars)
+    let nplain: usize = insts[0][m.fp.n_committed..].iter().map(|c| c.len() + 1).sum();
+    for e in events.iter().skip(1) {
+        if e.kind == 'C' && e.ty == "F" && stream.len() < nplain {
+            stream.push(mzkh::le_bytes_hex(&e.bytes));
+        }
+    }
+    let cols_s = insts[0][m.fp.n_committed..]
+        .iter()
+        .map(|c| c.iter().map(mzkh::fe_hex).collect::<Vec<_>>().join(","))
+        .collect::<Vec<_>>()
+        .join("|");
+    if n_proofs == 1 || m.fp.n_committed == 0 || true {
+        ctx.case("inststream", nplain > 0, &format!("inststream {}", if cols_s.is_empty() { "-".into() } else { cols_s }), &mzkh::join(&stream));
+    }
+    Some(Proven { proof, insts, coms, layout })
+}
+
+fn other_point(i: usize) -> Vec<u8> {
+    (G1Projective::generator() * F::from(i as u64 + 2)).to_affine().to_bytes().as_ref().to_vec()
+}
+
+fn mutate_all(ctx: &mut Ctx, m: &Member, p: &Proven, n_flips: usize, seed: u64) {
+    let vk = m.pk.get_vk();
+    let nc = m.fp.n_committed;
+    let desc = json!({"params": format!("{:?}", m.fp), "k": m.k, "seed": seed, "n_proofs": p.insts.len()});
+    let mut check = |ctx: &mut Ctx, class: &str, what: String, proof: &[u8], insts: &[Vec<Vec<F>>], coms: &[Vec<G1Projective>]| {
+        ctx.count(&format!("mutant:{class}"));
+        match verify::<Blake2bState>(&m.params, vk, nc, insts, coms, proof) {
+            Ok(false) => {}
+            Ok(true) => ctx.oracle_fail(&format!("accepted-mutant:{class}"), "verifier accepted a mutated proof/statement", json!({"case": desc, "mutation": what})),
+            Err(pn) => ctx.oracle_fail(&format!("panic-on-mutant:{class}"), "verifier panicked on a mutated proof/statement", json!({"case": desc, "mutation": what, "panic": pn})),
+        }
+    };
+    // element-wise substitutions
+    for (idx, (off, ty)) in p.layout.iter().enumerate() {
+        let size = if *ty == 'G' { 48 } else { 32 };
+        let orig = &p.proof[*off..*off + size];
+        let mut variants: Vec<(&str, Vec<u8>)> = vec![];
+        if *ty == 'G' {
+            variants.push(("point-other-valid", other_point(idx)));
+            variants.push(("point-invalid-encoding", vec![0xff; 48]));
+            let mut flagless = orig.to_vec();
+            flagless[0] &= 0x7f; // clear the compression flag
+            variants.push(("point-flag-cleared", flagless));
+        } else {
+            let v = F::from_repr(orig.try_into().unwrap()).unwrap();
+            variants.push(("scalar-other-canonical", (v + F::ONE).to_repr().as_ref().to_vec()));
+            variants.push(("scalar-noncanonical-ff", vec![0xff; 32]));
+            // value + modulus (non-canonical encoding of the same residue) when it fits in 256 bits
+            let big = mzkh::fe_big(&v) + num_bigint::BigUint::parse_bytes(b"73eda753299d7d483339d80809a1d80553bda402fffe5bfeffffffff00000001", 16).unwrap();
+            let mut b = big.to_bytes_le();
+            if b.len() <= 32 {
+                b.resize(32, 0);
+                variants.push(("scalar-plus-modulus", b));
+            }
+        }
+        for (class, bytes) in variants {
+            if bytes == orig {
+                continue;
+            }
+            let mut pr = p.proof.clone();
+            pr[*off..*off + size].copy_from_slice(&bytes);
+            check(ctx, class, format!("element {idx} at offset {off} ({ty}) := {class}"), &pr, &p.insts, &p.coms);
+        }
+    }
+    // bit flips
+    let mut rng = ctx.rng(&format!("flips{seed}"));
+    let total_bits = p.proof.len() * 8;
+    let flips: Vec<usize> = if n_flips >= total_bits { (0..total_bits).collect() } else { (0..n_flips).map(|_| rng.gen_range(0..total_bits)).collect() };
+    for b in flips {
+        let mut pr = p.proof.clone();
+        pr[b / 8] ^= 1 << (b % 8);
+        check(ctx, "bit-flip", format!("bit {b}"), &pr, &p.insts, &p.coms);
+    }
+    // length edits
+    let mut pr = p.proof.clone();
+    pr.push(0);
+    check(ctx, "trailing-byte", "append 0x00".into(), &pr, &p.insts, &p.coms);
+    let mut pr = p.proof.clone();
+    pr.extend_from_slice(&p.proof[p.proof.len() - 48..]);
+    check(ctx, "trailing-element", "append a copy of the last element".into(), &pr, &p.insts, &p.coms);
+    let mut pr = p.proof.clone();
+    pr.pop();
+    check(ctx, "truncated", "drop last byte".into(), &pr, &p.insts, &p.coms);
+    check(ctx, "truncated", "drop last element".into(), &p.proof[..p.proof.len() - 48], &p.insts, &p.coms);
+    check(ctx, "empty-proof", "empty".into(), &[], &p.insts, &p.coms);
+    // public-input edits (plain columns)
+    for pi in 0..p.insts.len() {
+        for c in nc..p.insts[pi].len() {
+            let col = &p.insts[pi][c];
+            let mut e = p.insts.clone();
+            e[pi][c][0] += F::ONE;
+            check(ctx, "pi-value", format!("proof {pi} column {c} row 0 += 1"), &p.proof, &e, &p.coms);
+            if col.len() >= 2 && col[0] != col[1] {
+                let mut e = p.insts.clone();
+                e[pi][c].swap(0, 1);
+                check(ctx, "pi-permutation", format!("proof {pi} column {c} swap rows 0,1"), &p.proof, &e, &p.coms);
+            }
+            let mut e = p.insts.clone();
+            e[pi][c].pop();
+            check(ctx, "pi-drop-last", format!("proof {pi} column {c}"), &p.proof, &e, &p.coms);
+            let mut e = p.insts.clone();
+            e[pi][c].push(F::ZERO);
+            check(ctx, "pi-append-zero", format!("proof {pi} column {c}"), &p.proof, &e, &p.coms);
+            if c + 1 < p.insts[pi].len() {
+                let mut e = p.insts.clone();
+                let v = e[pi][c].pop().unwrap();
+                e[pi][c + 1].push(v);
+                check(ctx, "pi-move-between-columns", format!("proof {pi} column {c} -> {}", c + 1), &p.proof, &e, &p.coms);
+            }
+        }
+        if p.insts[pi].len() > nc {
+            let mut e = p.insts.clone();
+            e[pi].pop();
+            check(ctx, "pi-drop-column", format!("proof {pi}"), &p.proof, &e, &p.coms);
+            let mut e = p.insts.clone();
+            e[pi].push(vec![]);
+            check(ctx, "pi-extra-column", format!("proof {pi}"), &p.proof, &e, &p.coms);
+        }
+        // committed instance edits
+        for c in 0..nc {
+            let mut e = p.coms.clone();
+            e[pi][c] += G1Projective::generator();
+            check(ctx, "committed-instance", format!("proof {pi} committed column {c} += G"), &p.proof, &p.insts, &e);
+        }
+    }
+    if p.insts.len() >= 2 && p.insts[0] != p.insts[1] {
+        let mut e = p.insts.clone();
+        e.swap(0, 1);
+        let mut ec = p.coms.clone();
+        ec.swap(0, 1);
+        check(ctx, "pi-swap-proofs", "swap the statements of proofs 0 and 1".into(), &p.proof, &e, &ec);
+    }
+    // other transcript hash
+    ctx.count("mutant:other-hash");
+    match verify::<PoseidonState<F>>(&m.params, vk, nc, &p.insts, &p.coms, &p.proof) {
+        Ok(false) => {}
+        other => ctx.oracle_fail("accepted-mutant:other-hash", "proof verified under a different transcript hash", json!({"case": desc, "result": format!("{other:?}")})),
+    }
+}
+
+fn wrong_vk(ctx: &mut Ctx, m: &Member, p: &Proven, others: &[(&str, &Member)]) {
+    for (class, o) in others {
+        ctx.count(&format!("mutant:vk-{class}"));
+        let r = verify::<Blake2bState>(&o.params, o.pk.get_vk(), m.fp.n_committed, &p.insts, &p.coms, &p.proof);
+        match r {
+            Ok(false) => {}
+            other => ctx.oracle_fail(
+                &format!("accepted-mutant:vk-{class}"),
+                "proof verified (or verifier panicked) under a different verifying key",
+                json!({"params": format!("{:?}", m.fp), "other": format!("{:?}", o.fp), "other_k": o.k, "result": format!("{other:?}")}),
+            ),
+        }
+    }
+}
+
+fn scalar_cases(ctx: &mut Ctx) {
+    let r = num_bigint::BigUint::parse_bytes(b"73eda753299d7d483339d80809a1d80553bda402fffe5bfeffffffff00000001", 16).unwrap();
+    let one = num_bigint::BigUint::from(1u8);
+    let mut vals = vec![num_bigint::BigUint::from(0u8), one.clone(), &r - &one, r.clone(), &r + &one, (&one << 255u32) - &one, (&one << 256u32) - &one, &r - num_bigint::BigUint::from(2u8), &r << 1u32];
+    let mut rng = ctx.rng("scalars");
+    for _ in 0..40 {
+        let mut b = [0u8; 32];
+        rng.fill(&mut b);
+        vals.push(num_bigint::BigUint::from_bytes_le(&b));
+    }
+    for v in vals {
+        let mut b = v.to_bytes_le();
+        if b.len() > 32 {
+            continue;
+        }
+        b.resize(32, 0);
+        let hex: String = b.iter().map(|x| format!("{x:02x}")).collect();
+        // the decoder used by the transcript for scalars
+        let mut rd = &b[..];
+        let got = <F as Hashable<Blake2bState>>::read(&mut rd);
+        let ans = match got {
+            Ok(x) => format!("some {}", mzkh::fe_hex(&x)),
+            Err(_) => "none".to_string(),
+        };
+        ctx.case("scalar", true, &format!("scalar {hex}"), &ans);
+    }
+}
 
 fn main() {
-    let ctx = Ctx::from_args("C03");
+    let mut ctx = Ctx::from_args("C03");
+    let mut rng = ctx.rng("family");
+    let (n_members, n_flips) = match ctx.tier.as_str() {
+        "quick" => (8, 128),
+        "thorough" => (24, usize::MAX),
+        _ => (10, 600),
+    };
+    scalar_cases(&mut ctx);
+    let every = FamParams {
+        n_adv0: 4,
+        n_adv1: 1,
+        unblinded: true,
+        n_committed: 1,
+        n_plain: 2,
+        gates: vec![GateKind::Mul, GateKind::LinRot, GateKind::Additive, GateKind::Chal],
+        lookups: vec![LookupKind::Range, LookupKind::Pair],
+        copies: true,
+        const_copies: true,
+        inst_copies: true,
+        steps: 6,
+        table_bits: 3,
+    };
+    let base = setup_member(&every, 31, 4);
+    // wrong verifying keys: same circuit at another k; another circuit; same shape with other fixed content
+    let other_k = setup_member(&every, 31, base.k + 1);
+    let other_circuit = setup_member(&FamParams { gates: vec![GateKind::Mul, GateKind::LinRot, GateKind::Additive, GateKind::Complex], ..every.clone() }, 31, 4);
+    let other_fixed = setup_member(&FamParams { steps: 5, ..every.clone() }, 31, base.k);
+    for np in [1usize, 2] {
+        if let Some(p) = prove(&mut ctx, &base, np, 300 + np as u64) {
+            mutate_all(&mut ctx, &base, &p, n_flips, 300 + np as u64);
+            wrong_vk(&mut ctx, &base, &p, &[("other-k", &other_k), ("other-circuit", &other_circuit), ("other-fixed", &other_fixed)]);
+        }
+    }
+    for i in 0..n_members {
+        let fp = sample_params(&mut rng);
+        let m = setup_member(&fp, 3000 + i as u64, 4);
+        let np = rng.gen_range(1..=2);
+        if let Some(p) = prove(&mut ctx, &m, np, 3000 + i as u64) {
+            mutate_all(&mut ctx, &m, &p, n_flips, 3000 + i as u64);
+        }
+    }
     ctx.finish();
 }
